@@ -710,10 +710,94 @@ fn state_case<I: IdealGas + 'static>(
             "scale": sums[2].2 + sums[0].2 + sums[1].2,
             "getter": [mu(Contributions::IdealGas), mu(Contributions::Residual), mu(Contributions::Total)]}));
     }
-    let json = json!({"id": id, "config": cfg.name, "ideal_gas": ig_desc, "mu_contributions": mu_contrib, "T": t, "V": v, "N": n, "eta_over_eta_max": eta_frac,
+    // relabelling through EquationOfState::subset with a permutation (same number of components): the ideal-gas part must follow
+    let mut subset_perm = Value::Null;
+    if nc > 1 {
+        let perm: Vec<usize> = (0..nc).rev().collect();
+        let sub = Arc::new(eos.subset(&perm));
+        let np: Vec<f64> = perm.iter().map(|&i| n[i]).collect();
+        if let Ok(sp) = State::new_nvt(&sub, Temperature::from_reduced(t), Volume::from_reduced(v), &Moles::from_reduced(Array1::from_vec(np))) {
+            let c = Contributions::IdealGas;
+            let mu0 = st.chemical_potential(c).to_reduced();
+            let mu1 = sp.chemical_potential(c).to_reduced();
+            subset_perm = json!({"perm": perm,
+                "A": [st.helmholtz_energy(c).to_reduced(), sp.helmholtz_energy(c).to_reduced()],
+                "S": [st.entropy(c).to_reduced(), sp.entropy(c).to_reduced()],
+                "cp": [st.molar_isobaric_heat_capacity(c).to_reduced(), sp.molar_isobaric_heat_capacity(c).to_reduced()],
+                "mu": [perm.iter().map(|&i| mu0[i]).collect::<Vec<f64>>(), mu1.to_vec()]});
+        }
+    }
+    let json = json!({"id": id, "config": cfg.name, "ideal_gas": ig_desc, "mu_contributions": mu_contrib, "subset_permutation": subset_perm, "T": t, "V": v, "N": n, "eta_over_eta_max": eta_frac,
         "getters": rows, "all_finite": ok, "p_ig_SI": p_si, "rho_SI": rho_si, "T_SI": t_si, "minus_dAig_dV_reduced": -ij.a_v,
         "mixing": mixing, "goals": goals});
     Some(StateCase { json, coq })
+}
+
+/// DFT profile with an ideal-gas model attached: the selector-taking profile properties (feos-dft/src/profile/properties.rs:
+/// entropy_density / internal_energy_density for Total and Residual; IdealGas panics by design).  Total - Residual at sampled grid
+/// points is compared with (i) the bulk State of the same T and partial densities (oracle) and (ii) the Coq model of the local
+/// ideal-gas Helmholtz energy density (interval goals: -dA_dT(T, 1, rho) and A_ig - T dA_dT).
+fn dft_case<I: IdealGas + 'static>(id: &str, names: &[String], recs: &[Rec], ig: Arc<I>, pnames: &[&str], rng: &mut Rng, file: &mut String) -> Option<Value> {
+    use feos::pcsaft::PcSaftFunctional;
+    use feos_dft::{Axis, DFTProfile, Grid};
+    use ndarray::{Array2, Ix1};
+    use quantity::{Density, Length};
+    let nc = recs.len();
+    let params = configs::pcsaft_params(pnames, "gross2001.json", None);
+    let func = Arc::new(EquationOfState::new(ig, Arc::new(PcSaftFunctional::new(Arc::new(params)))));
+    let t = rng.range(200.0, 450.0);
+    // a smooth (tanh) profile between a vapour-like and a liquid-like composition, arbitrary (not an equilibrium profile)
+    let ngrid = 64usize;
+    let l = 60.0;
+    let x_l = sample_x(rng, nc);
+    let x_v = sample_x_trace(rng, nc);
+    let (rho_l, rho_v) = (rng.range(4.0e-3, 7.0e-3), rng.log_range(1.0e-7, 1.0e-4));
+    let mut dens = Array2::<f64>::zeros((nc, ngrid));
+    for i in 0..nc {
+        for z in 0..ngrid {
+            let zz = (z as f64 + 0.5) / ngrid as f64 * l;
+            let w = 0.5 * (1.0 + ((zz - 0.5 * l) / 4.0).tanh());
+            dens[[i, z]] = (1.0 - w) * rho_v * x_v[i] + w * rho_l * x_l[i];
+        }
+    }
+    let nb: Vec<f64> = (0..nc).map(|i| dens[[i, 0]] * 1000.0).collect();
+    let bulk = State::new_nvt(&func, Temperature::from_reduced(t), Volume::from_reduced(1000.0), &Moles::from_reduced(Array1::from_vec(nb))).ok()?;
+    let grid = Grid::Cartesian1(Axis::new_cartesian(ngrid, Length::from_reduced(l), None));
+    let density = Density::from_reduced(dens.clone());
+    let profile: DFTProfile<Ix1, _> = DFTProfile::new(grid, &bulk, None, Some(&density), None);
+    let s_tot = profile.entropy_density(Contributions::Total).ok()?.to_reduced();
+    let s_res = profile.entropy_density(Contributions::Residual).ok()?.to_reduced();
+    let u_tot = profile.internal_energy_density(Contributions::Total).ok()?.to_reduced();
+    let u_res = profile.internal_energy_density(Contributions::Residual).ok()?.to_reduced();
+    let s_int = profile.entropy(Contributions::Total).ok()?.to_reduced() - profile.entropy(Contributions::Residual).ok()?.to_reduced();
+    let ts = dy(t);
+    let mut points = Vec::new();
+    let mut goals = Vec::new();
+    for (k, z) in [1usize, ngrid / 4, ngrid / 2 - 2, ngrid / 2 + 1, 3 * ngrid / 4, ngrid - 2].iter().enumerate() {
+        let rho: Vec<f64> = (0..nc).map(|i| dens[[i, *z]]).collect();
+        let v = 1.0 / rho.iter().sum::<f64>() * 8.0; // bulk state with 8 particles at the local partial densities
+        let n: Vec<f64> = rho.iter().map(|r| r * v).collect();
+        let st = State::new_nvt(&func, Temperature::from_reduced(t), Volume::from_reduced(v), &Moles::from_reduced(Array1::from_vec(n.clone()))).ok()?;
+        let s_ig_bulk = st.entropy(Contributions::IdealGas).to_reduced() / v;
+        let u_ig_bulk = st.internal_energy(Contributions::IdealGas).to_reduced() / v;
+        let (ds, du) = (s_tot[*z] - s_res[*z], u_tot[*z] - u_res[*z]);
+        let lam = lam_of(&*func, t);
+        let term: f64 = (0..nc).map(|i| rho[i] * (lam[i].abs() + rho[i].ln().abs() + 1.0)).sum();
+        let s_scale = term * 10.0 + s_tot[*z].abs() + s_res[*z].abs();
+        let u_scale = t * term * 10.0 + u_tot[*z].abs() + u_res[*z].abs();
+        let cs = format!("[{}]", recs.iter().zip(&rho).map(|(r, x)| r.icomp(*x)).collect::<Vec<_>>().join("; "));
+        writeln!(file, "Definition cs_{id}_{k} : list icomp := {cs}.").unwrap();
+        let gs = format!("dftS_{id}_{k}");
+        let gu = format!("dftU_{id}_{k}");
+        goal(file, &gs, &format!("(- dA_dT {ts} 1 cs_{id}_{k})"), ds, 1e-9 * s_scale, &format!("c10_helm cs_{id}_{k}."));
+        goal(file, &gu, &format!("(A_ig {ts} 1 cs_{id}_{k} - {ts} * dA_dT {ts} 1 cs_{id}_{k})"), du, 1e-9 * u_scale, &format!("c10_helm cs_{id}_{k}."));
+        goals.push(gs.clone());
+        goals.push(gu.clone());
+        points.push(json!({"z": z, "rho": rho, "s_total": s_tot[*z], "s_residual": s_res[*z], "s_ideal_bulk": s_ig_bulk, "s_scale": s_scale,
+            "u_total": u_tot[*z], "u_residual": u_res[*z], "u_ideal_bulk": u_ig_bulk, "u_scale": u_scale, "goals": [gs, gu]}));
+    }
+    Some(json!({"id": id, "functional": format!("PcSaftFunctional{:?}", pnames), "records": names, "models": recs.iter().map(|r| r.json()).collect::<Vec<_>>(),
+        "T": t, "grid_points": ngrid, "length": l, "points": points, "goals": goals, "entropy_total_minus_residual_integrated": s_int}))
 }
 
 /// zero-density sweep (support search): residual quantities relative to their ideal-gas scale along rho -> 0
@@ -927,6 +1011,28 @@ fn main() {
         sweep_json.push(c);
     }
 
+    // ---------------- part F: DFT profiles (mixtures and pure) with an ideal-gas model attached
+    let mut dft_json = Vec::new();
+    let dft_sets: Vec<&[&str]> = if full { vec![&["propane", "butane"], &["propane"], &["propane", "hexane", "decane"], &["butane", "hexane"]] } else { vec![&["propane", "butane"], &["propane"]] };
+    for (k, pn) in dft_sets.iter().enumerate() {
+        let (names, recs) = pick_ig(&mut rng, pn.len(), &jb_all, &dpool, k % 2 == 0);
+        let id = format!("d{k}");
+        let mut body = String::new();
+        let c = match build(&recs) {
+            Ig::J(m) => dft_case(&id, &names, &recs, m, pn, &mut rng, &mut body),
+            Ig::D(m) => dft_case(&id, &names, &recs, m, pn, &mut rng, &mut body),
+        };
+        if let Some(mut c) = c {
+            let fname = format!("dft_{id}.v");
+            write(&fname, &body);
+            c["file"] = json!(fname);
+            files.push(fname);
+            dft_json.push(c);
+        } else {
+            dft_json.push(json!({"id": id, "error": "profile / bulk state could not be evaluated", "functional": format!("{:?}", pn)}));
+        }
+    }
+
     // ---------------- part C / D
     let only = cli.opt("--only");
     let quick_cfgs = ["pr2", "pcsaft_propane", "pcsaft_propane_butane_kij", "pcsaft_water_methanol", "pcsaft_co2_chlorine", "saftvrmie_ethane"];
@@ -1019,6 +1125,7 @@ fn main() {
         "mixtures": mix_json,
         "guard": guard_json,
         "trait_sweep": sweep_json,
+        "dft": dft_json,
         "states": state_json,
         "states_skipped_nonfinite_or_invalid": skipped,
         "zero_density": zero_json,
